@@ -31,7 +31,7 @@ func init() {
 		Level: "model_checking",
 		// generous internal deadline: the run takes 1-2 minutes on an idle machine and several times that next to other jobs
 		QuickBudget: 900,
-		Rule: "all histories of <=1 (thorough <=2) earlier programs followed by a program under test over an alphabet of 62 programs (incl. source files loaded by relative path - a module that raises, one that does not parse, a good one - and regular expressions whose texts share one symbol key) (incl. pairs that raise the same run-time error from different source positions, and programs that invite!/import the embedded and Go standard modules after defining variables) (define a variable, read it, shadow a built-in name, use a built-in, raise `_` on different lines, touch Either's abstract props, raise at depth 2, syntax error, intern new symbols via evalEnv, print, read stdin, iterate, user error, error inside native code, inspect built-in prototypes), " +
+		Rule: "all histories of <=1 (thorough <=2) earlier programs followed by a program under test over an alphabet of 68 programs (incl. source files loaded by relative path - a module that raises, one that does not parse, a good one - and regular expressions whose texts share one symbol key) (incl. pairs that raise the same run-time error from different source positions, and programs that invite!/import the embedded and Go standard modules after defining variables) (define a variable, read it, shadow a built-in name, use a built-in, raise `_` on different lines, touch Either's abstract props, raise at depth 2, syntax error, intern new symbols via evalEnv, print, read stdin, iterate, user error, error inside native code, inspect built-in prototypes), " +
 			"each history in a new process, under 2 reuse drivers (playground: one const env, one enclosed scope per program - the call sequence of web/wasm/executor.go; `pangaea test`: runscript.RunTest over a generated directory); " +
 			"oracle: (stdout, value, error message, stack trace) of the program under test equals its observation alone in a new process; states = histories, transitions = program evaluations; " +
 			"non-trivial = every history of length >=1; distinct = distinct (driver, history, program)",
@@ -125,6 +125,14 @@ var alphabet = []prog{
 	// two patterns / names that differ only in text, with the same 64-bit symbol key
 	{Name: "regex-pattern-v1", Src: "[\"id=swddgEpwqyega;\".match(\"swddgEpwqyega\"), \"xswddgEpwqyegay\".sub(\"swddgEpwqyega\", \"-\"), \"1swddgEpwqyega2\" / \"swddgEpwqyega\"]"},
 	{Name: "regex-pattern-v2", Src: "[\"id=lwvgwfgDAyorc;\".match(\"lwvgwfgDAyorc\"), \"xlwvgwfgDAyorcy\".sub(\"lwvgwfgDAyorc\", \"-\"), \"1lwvgwfgDAyorc2\" / \"lwvgwfgDAyorc\"]"},
+	// operations that fail part-way (caught) and the same kinds of operation done plainly by a later program
+	{Name: "interpolation-fails-part-way", Src: "[nil.try.{|u| \"id=#{2}#{1 / 0}\"}.err?, nil.try.{|u| \"a#{'x}b#{nil.zz}c\"}.err?]"},
+	{Name: "interpolation-plain", Src: "name := \"world\"\n[\"Hello, #{name}!\", \"#{1}-#{2}\"]"},
+	{Name: "literals-and-calls-fail-part-way", Src: "[nil.try.{|u| [1, 2, 1 / 0]}.err?, nil.try.{|u| {a: 1, b: 1 / 0}}.err?, nil.try.{|u| %{1: 2, 3: 1 / 0}}.err?, nil.try.{|u| {|a, b| a}(1, 1 / 0)}.err?, nil.try.{|u| [1, 2]@{|x| x / 0}}.err?, nil.try.{|u| (1:(1 / 0))}.err?]"},
+	{Name: "literals-and-calls-plain", Src: "[[3, 4], {c: 5}, %{6: 7}, {|a, b| [a, b]}(8, 9), [1, 2]@{|x| x * 2}, (1:3).A]"},
+	// many failed calls, then a deep (but finite) recursion
+	{Name: "many-failed-deep-calls", Src: "f := {|n| raise ValueErr.new(\"x\") if n == 0; f(n - 1)}\n(1:80)@{|i| nil.try.{|u| f(100)}.err?}.len"},
+	{Name: "recursion-9900-deep", Src: "g := {|n| return 0 if n == 0; g(n - 1)}\ng(9900)"},
 	{Name: "bear-patch-builtins", Src: "c := Int.bear({extra: 1})\nd := {a: 1}.patch(b: 2)\n[c['extra], Int['extra], d, Obj['b]]"},
 }
 
